@@ -272,9 +272,10 @@ structure NormFusion where
   epsSingleton : Bool := true        -- `get_singleton_value(epsilon) is not None`
   epsIsFloat : Bool := true          -- rms: `isinstance(epsilon_value, float)`
   computeDtype : Option Nat := none  -- rms: the `to` of the optional leading Cast
-  /-- what `check` does not look at: rank of x and of the scale (bias for `layerNormBias`), and the opset -/
-  xRank : Nat := 2
-  otherRank : Nat := 1
+  /-- rank of x and of the scale (bias for `layerNormBias`); `none` = shape unknown -/
+  xRank : Option Nat := some 2
+  otherRank : Option Nat := some 1
+  /-- what `check` does not look at: the opset -/
   opset : Nat := 23
 
 structure NormRepl where
@@ -297,16 +298,24 @@ def NormFusion.rmsOk (p : NormFusion) : Bool :=
   p.epsSingleton && p.epsIsFloat && dtypeIn floatTypes p.xDtype && dtypeIn floatTypes p.scaleDtype &&
   dtypeIn layerNormComputeTypes p.rmsStash
 
-def NormFusion.run (p : NormFusion) : Outcome NormRepl :=
+/-- Guard added by commit fd3c959 (finding C05-N11, fixed): both shapes known and the scale / bias does not outrank x. -/
+def NormFusion.rankOk (p : NormFusion) : Bool :=
+  match p.xRank, p.otherRank with
+  | some rx, some ro => decide (ro ≤ rx)
+  | _, _ => false
+
+/-- The three rules before commit fd3c959. -/
+def NormFusion.runPrefix (p : NormFusion) : Outcome NormRepl :=
   match p.kind with
   | .layerNorm => if p.lnOk then .fire { stashType := p.xDtype } else .nofire
   | .layerNormBias => .fire { stashType := none }
   | .rmsNorm => if p.rmsOk then .fire { stashType := p.rmsStash } else .nofire
 
-/-- Side conditions the fusion checks do not establish: the scale/bias must not outrank x (finding C05-N11) and
-`RMSNormalization` exists only from opset 23 (finding C05-N12). -/
-def NormFusion.hyp (p : NormFusion) : Bool :=
-  decide (p.otherRank ≤ p.xRank) && (p.kind != .rmsNorm || decide (23 ≤ p.opset))
+def NormFusion.run (p : NormFusion) : Outcome NormRepl :=
+  if p.rankOk then p.runPrefix else .nofire
+
+/-- Side condition the fusion checks do not establish: `RMSNormalization` exists only from opset 23 (finding C05-N12). -/
+def NormFusion.hyp (p : NormFusion) : Bool := p.kind != .rmsNorm || decide (23 ≤ p.opset)
 
 /-! ## ONNX `Slice` with step 1 on one axis, any start/end (for `collapse_slice2`) -/
 
